@@ -50,6 +50,15 @@ def _blahut_arimoto(p_x, beta, q_y_x, distortion, max_iters=100):
         q_xy = p_x[:, np.newaxis] * q_y_x
         return q_xy
 
+    def dist_matrix(q_y_x):
+        """
+        :math:`d(x, y)`. Inputs of probability zero carry no weight, but their
+        rows can hold inf or nan (turning every average into nan): zero them.
+        """
+        d = np.array(distortion(p_x, q_y_x), dtype=float)
+        d[p_x == 0] = 0
+        return d
+
     def next_q_y(q_y_x):
         """
         :math:`q(y) = \\sum_x q(y|x)p(x)`
@@ -61,7 +70,7 @@ def _blahut_arimoto(p_x, beta, q_y_x, distortion, max_iters=100):
         """
         :math:`q(y|x) = q(y) 2^{-\\beta * distortion}`
         """
-        d = distortion(p_x, q_y_x)
+        d = dist_matrix(q_y_x)
         q_y_x = q_y * np.exp2(-beta * d)
         q_y_x /= q_y_x.sum(axis=1, keepdims=True)
         return q_y_x
@@ -79,12 +88,12 @@ def _blahut_arimoto(p_x, beta, q_y_x, distortion, max_iters=100):
         """
         q_y = next_q_y(q_y_x)
         q_y_x = next_q_y_x(q_y, q_y_x)
-        d = av_dist(q_y_x, distortion(p_x, q_y_x))
+        d = av_dist(q_y_x, dist_matrix(q_y_x))
         return q_y, q_y_x, d
 
     q_y = next_q_y(q_y_x)
     prev_d = 0
-    d = av_dist(q_y_x, distortion(p_x, q_y_x))
+    d = av_dist(q_y_x, dist_matrix(q_y_x))
 
     iters = 0
     while not np.isclose(prev_d, d) and iters < max_iters:
